@@ -38,7 +38,7 @@ for d in $DEMOS; do
   mkdir -p "$OUT/demo/$(dirname $d)"; cp "$WT/$d" "$OUT/demo/$d"; cp "$WT/$d" "$SCR/repo/$d"
 done
 PKGS=$(for d in $DEMOS; do echo ./$(dirname $d); done | sort -u)
-if grep -qi "race" "$OUT/demo/"*/zz_seeded_demo_test.go "$OUT/demo/"zz_seeded_demo_test.go 2>/dev/null; then RACE="-race"; fi
+if grep -rqi "race" "$OUT/demo" 2>/dev/null; then RACE="-race"; fi
 go test -vet=off -count=1 $RACE -run 'Seeded|seeded|ZZ|Zz|zz' $PKGS > "$SCR/demo_mut.txt" 2>&1; RC_MUT=$?
 patch -p1 -R -s < "$OUT/patch.diff"
 go test -vet=off -count=1 $RACE -run 'Seeded|seeded|ZZ|Zz|zz' $PKGS > "$SCR/demo_orig.txt" 2>&1; RC_ORIG=$?
